@@ -17,8 +17,13 @@ RULE = ("core: seeded read matrices (1..6 reads, 2..6 columns, alleles 0/1, qual
         "instances and its per-bipartition chain form on all (both proved equal to posterior_spec, C08_spec_variants) "
         "and that each triple sums to one, and (L2) with the faithful model fb_run of the scaled, projected, "
         "check-pointed forward-backward pass. CLI: `whatshap genotype` on synthetic reference/VCF/BAM data (single "
-        "sample, trio with PED; --no-priors and prior genotyping; several --gt-qual-threshold / --max-coverage / "
-        "--recombrate); the DP instance the CLI builds (reads, recombination costs, priors, pedigree) is recorded in "
+        "sample; trio with PED; 3-4 unrelated samples with --sample selecting every position subset (first, middle, "
+        "last, pairs, all); trio plus unrelated extra VCF columns before/after/inside the family with --ped "
+        "--use-ped-samples; one or two chromosomes with --chromosome subsets; --no-priors and prior genotyping; "
+        "several --gt-qual-threshold / --max-coverage / --recombrate); every call of every sample of every record "
+        "on a processed chromosome is checked (samples that were not to be genotyped must have uniform/absent GL, "
+        "GT ./. and no GQ), against the rules alone (L1) and against the writer model on the likelihood table "
+        "handed to the writer (L2); the DP instance the CLI builds (reads, recombination costs, priors, pedigree) is recorded in "
         "the child process, L1: the output VCF's GL triple is a distribution, GT its unique maximum above the threshold "
         "or ./., GQ the rounded phred value of the other mass (on the VCF alone, tolerance 1e-4 for float formatting); "
         "L2: GL/GT/GQ against the writer model applied to fb_run of the recorded instance. A case is non-trivial if "
@@ -109,6 +114,44 @@ Definition call_L2 (f : nat -> nat -> nat -> Q) (thr : Q) (cl : call_t) : bool :
   | None, None => true
   | _, _ => false
   end.
+(* writer level, every sample of every record.  call = (sample was to be genotyped, GT, GQ, 10^GL or None if GL is
+   absent, the likelihood triple the writer was handed for this sample and variant or None) *)
+Definition wcall_t := (bool * option nat * option Z * option (seq Q) * option (seq Q))%type.
+Definition uniform3 (p : seq Q) : bool := (size p == 3%nat) && all (fun x => qclose cli_tol x (1 # 3)%Q) p.
+Definition no_call (gt : option nat) (gq : option Z) : bool :=
+  (if gt is None then true else false) && (if gq is None then true else false).
+(* L1 on the output alone: a present GL triple is a distribution, GT its unique maximum above the threshold or
+   ./., GQ the phred-scaled other mass (absent for ./.); a sample that was not to be genotyped has uniform or
+   absent GL, hence no unique maximum: GT ./. and no GQ *)
+Definition wcall_L1 (thr : Q) (cl : wcall_t) : bool :=
+  let: (sel, gt, gq, p, l) := cl in
+  (if p is Some p' then
+     gl_distribution cli_tol p' && gt_ok cli_tol p' thr gt &&
+     match gt, gq with
+     | Some g, Some q => gq_rule_tol cli_tol (other_mass p' g) q
+     | None, None => true
+     | _, _ => false
+     end
+   else no_call gt gq) &&
+  (sel || ((if p is Some p' then uniform3 p' else true) && no_call gt gq)).
+Definition CLIW_L1 (cs : Q * seq wcall_t) : bool := all (wcall_L1 cs.1) cs.2.
+(* L2: the writer model on the likelihoods the writer was handed (default: uniform, no genotype) *)
+Definition wcall_L2 (thr : Q) (cl : wcall_t) : bool :=
+  let: (sel, gt, gq, p, l) := cl in
+  match l with
+  | Some l' =>
+      (size l' == 3%nat) &&
+      (if p is Some p' then (size p' == 3%nat) && all (fun g => qclose cli_tol (nth 0%Q p' g) (nth 0%Q l' g)) (iota 0%nat 3%nat)
+       else false) &&
+      ((gt == call_gt l' thr) || gt_ok tol l' thr gt) &&
+      match gt, gq with
+      | Some g, Some q => gq_rule_tol tol (other_mass l' g) q
+      | None, None => true
+      | _, _ => false
+      end
+  | None => (if p is Some p' then uniform3 p' else true) && no_call gt gq
+  end.
+Definition CLIW_L2 (cs : Q * seq wcall_t) : bool := all (wcall_L2 cs.1) cs.2.
 Definition CLI_L2 (cs : inst bigQ * Q * seq call_t) : bool :=
   wf cs.1.1 && (if model_table cs.1.1 is Some f then all (call_L2 f cs.1.2) cs.2 else false).
 """
@@ -345,7 +388,7 @@ class Recorder:
         for r in readset:
             reads.append({"name": r.name, "sample_id": r.sample_id, "vars": [[v.position, v.allele, v.quality] for v in r]})
         self.entry = {"reads": reads, "recomb": list(recombcost), "positions": list(positions),
-                      "nind": len(pedigree), "lik": {}, "priors": {}, "pedigree": str(pedigree)}
+                      "nind": len(pedigree), "lik": {}, "priors": {}, "pedigree": str(pedigree), "chrom": cur.get("chrom")}
         self.pedigree = pedigree
         rec.append(self.entry)
     def get_genotype_likelihoods(self, sample, pos):
@@ -356,10 +399,27 @@ class Recorder:
         self.entry.setdefault("sample_ids", {})[sample] = self.ids[sample]
         return gl
 g.GenotypeDPTable = Recorder
+# the chromosome being processed (argument of PhasedInputReader.read) and the writer's input: the likelihood
+# table of every sample (None = not genotyped) as handed to GenotypeVcfWriter.write_genotypes
+cur = {}
+_read = g.PhasedInputReader.read
+def read(self, chromosome, *a, **k):
+    cur["chrom"] = chromosome
+    return _read(self, chromosome, *a, **k)
+g.PhasedInputReader.read = read
+tables = []
+_wg = g.GenotypeVcfWriter.write_genotypes
+def write_genotypes(self, chromosome, variant_table, *a, **k):
+    tab = {}
+    for smp in variant_table.samples:
+        tab[smp] = [None if l is None else [float(x).hex() for x in l] for l in variant_table.genotype_likelihoods_of(smp)]
+    tables.append({"chrom": chromosome, "positions": [v.position for v in variant_table.variants], "lik": tab})
+    return _wg(self, chromosome, variant_table, *a, **k)
+g.GenotypeVcfWriter.write_genotypes = write_genotypes
 args = json.load(sys.stdin)
 try:
     g.run_genotype(output="out.vcf", **args)
-    print(json.dumps({"vcf": open("out.vcf").read(), "rec": rec}))
+    print(json.dumps({"vcf": open("out.vcf").read(), "rec": rec, "tables": tables}))
 except SystemExit as e:
     print(json.dumps({"exit": str(e)}))
 '''
@@ -390,43 +450,96 @@ def gt_index(gt):
     return sum(int(x) for x in a)
 
 
+SUBSETS3 = [[0], [1], [2], [0, 1], [0, 2], [1, 2], [0, 1, 2]]
+
+
+def cli_plan(ctx, n):
+    """kinds of CLI runs, cycling so that the quick tier already contains: single sample, trio (all genotyped),
+    three unrelated samples with --sample selecting every position subset, four samples, a trio with an extra
+    unrelated VCF column before / after the family and --use-ped-samples, and --chromosome subsets."""
+    base = [("single", {}), ("trio", {})]
+    multi = [("multi3", {"subset": sub, "twochrom": i % 3 == 1}) for i, sub in enumerate(SUBSETS3)]
+    multi.append(("multi4", {"twochrom": True}))
+    ped = [("pedextra", {"extra_first": True, "twochrom": False}), ("pedextra", {"extra_first": False, "twochrom": True}),
+           ("pedextra", {"extra_first": True, "twochrom": True}), ("pedextra", {"extra_first": False, "twochrom": False})]
+    cycle = []
+    for i in range(max(len(multi), len(ped))):
+        cycle += [base[i % 2], multi[i % len(multi)]]
+        if i < len(ped):
+            cycle.append(ped[i])
+    return [cycle[i % len(cycle)] for i in range(n)]
+
+
 def cli_cases(ctx, n):
     from .. import synth
     from ..util import workdir, run_py
     rng = ctx.rng
     wd = workdir(ctx)
     out = []
-    for k in range(n):
-        trio = (k % 3 == 2)
-        samples = ["father", "mother", "child"] if trio else ["s1"]
-        nvars = rng.randint(3, 6)
-        sc = synth.make_scenario(rng, nchrom=1, nsamples=len(samples), nvars=nvars, kinds=("snv",), sample_names=samples)
-        if trio:
+    for k, (kind, opt) in enumerate(cli_plan(ctx, n)):
+        family = None
+        if kind == "single":
+            samples, selected = ["s1"], None
+        elif kind == "trio":
+            samples, selected, family = ["father", "mother", "child"], None, True
+        elif kind == "multi3":
+            samples = ["u1", "u2", "u3"]
+            selected = [samples[i] for i in opt["subset"]]
+        elif kind == "multi4":
+            samples = ["u1", "u2", "u3", "u4"]
+            selected = sorted(rng.sample(samples, rng.randint(1, 3)), key=samples.index)
+        else:
+            fam = ["father", "mother", "child"]
+            rng.shuffle(fam)
+            samples = (["extra"] + fam) if opt["extra_first"] else (fam + ["extra"])
+            if rng.random() < 0.3:
+                samples.insert(rng.randint(1, 3), "other")
+            selected, family = None, True
+        nchrom = 2 if opt.get("twochrom") else 1
+        nvars = rng.randint(3, 6) if nchrom == 1 else rng.randint(2, 4)
+        sc = synth.make_scenario(rng, nchrom=nchrom, nsamples=len(samples), nvars=nvars, kinds=("snv",), sample_names=samples)
+        if family:
             # the child inherits (no recombination) so that the data are consistent with the pedigree
-            chrom = sc.chroms[0]
-            sc.haps["child"][chrom] = synth.inherit(rng, sc.haps["father"][chrom], sc.haps["mother"][chrom])[0]
+            for chrom in sc.chroms:
+                sc.haps["child"][chrom] = synth.inherit(rng, sc.haps["father"][chrom], sc.haps["mother"][chrom])[0]
         d = os.path.join(wd, f"cli{k}")
         os.makedirs(d)
         fa, vcf, bam = os.path.join(d, "ref.fa"), os.path.join(d, "in.vcf"), os.path.join(d, "reads.bam")
         synth.write_fasta(sc, fa)
         synth.write_vcf(sc, vcf)
         reads = []
-        chrom = sc.chroms[0]
-        for s in samples:
-            reads += synth.simulate_reads(rng, sc, s, chrom, rng.randint(1, 2) if trio else rng.randint(2, 5), len_range=(120, 320), name_prefix=s,
-                                          qual=rng.choice([10, 20, 30]))
+        for chrom in sc.chroms:
+            for s in samples:
+                nr = rng.randint(1, 2) if (family and s in ("father", "mother", "child")) else rng.randint(3, 5)
+                reads += synth.simulate_reads(rng, sc, s, chrom, nr, len_range=(120, 320), name_prefix=f"{s}_{chrom}_",
+                                              qual=rng.choice([10, 20, 30]))
         synth.write_bam(sc, reads, bam)
-        args = dict(phase_input_files=[bam], variant_file=vcf, reference=None, max_coverage=rng.choice([3, 4, 6]) if not trio else 6,
-                    nopriors=rng.random() < 0.5, gt_qual_threshold=rng.choice([0, 0, 3, 10, 20, 60]),
+        args = dict(phase_input_files=[bam], variant_file=vcf, reference=None,
+                    max_coverage=6 if family else rng.choice([3, 4, 6]),
+                    nopriors=rng.random() < 0.5,
+                    gt_qual_threshold=rng.choice([0, 0, 3, 10, 20, 60] if kind in ("single", "trio") else [0, 0, 0, 3, 3, 10]),
                     write_command_line_header=False)
-        if trio:
+        if selected is not None:
+            args["samples"] = selected
+        if family:
             ped = os.path.join(d, "t.ped")
             synth.write_ped(ped, [("child", "father", "mother")])
             args["ped"] = ped
             args["recombrate"] = rng.choice([1.26, 50.0])
+            if kind == "pedextra":
+                args["use_ped_samples"] = True
+        processed = None
+        if nchrom == 2 and rng.random() < 0.7:
+            processed = [rng.choice(sc.chroms)]
+            args["chromosomes"] = processed
+        if kind == "pedextra":
+            genotyped = ["father", "mother", "child"]
+        else:
+            genotyped = selected if selected is not None else list(samples)
         rc, so, se = run_py(ctx, CLI_DRIVER, stdin=json.dumps(args), cwd=d)
-        out.append(dict(k=k, args={a: (v if not isinstance(v, str) or not v.startswith(wd) else os.path.basename(v))
-                                   for a, v in args.items()}, rc=rc, stdout=so, stderr=se[-2000:], trio=trio,
+        out.append(dict(k=k, kind=kind, args={a: (v if not isinstance(v, str) or not v.startswith(wd) else os.path.basename(v))
+                                              for a, v in args.items()}, rc=rc, stdout=so, stderr=se[-2000:],
+                        vcf_samples=samples, genotyped=genotyped, processed=processed or list(sc.chroms),
                         scenario=sc.to_json()))
     return out
 
@@ -458,13 +571,12 @@ def check_cli(ctx, n):
             if inst is None:
                 ctx.tally("cli.skipped-too-large")
                 continue
-            chrom = list(run["scenario"]["ref"])[0]
+            chrom = entry.get("chrom") or list(run["scenario"]["ref"])[0]
             cl = []
             for ind, s in enumerate(order):
                 for c, p in enumerate(entry["positions"]):
                     gt, gq, gl = calls[(chrom, p, s)]
-                    gls = [float(x) for x in gl.split(",")]
-                    pvals = [Fraction(10.0 ** x) for x in gls]
+                    pvals = gl_values(gl) or []
                     cl.append((c, ind, gt_index(gt), None if gq in (None, ".") else int(gq), pvals))
             ctx.tally("cli.calls", len(cl))
             ctx.tally("cli.calls.nocall", sum(1 for x in cl if x[2] is None))
@@ -476,6 +588,32 @@ def check_cli(ctx, n):
             for fn, cst in (("CLI_L1", 5), ("CLI_L2", cost)):
                 items.append((fn, term, cst))
                 meta.append((run, inst, cl, fn))
+        # writer level: EVERY call of EVERY sample of every record on a processed chromosome
+        wcalls = []
+        tabs = {t["chrom"]: t for t in data.get("tables", [])}
+        for chrom in run["processed"]:
+            t = tabs.get(chrom)
+            if t is None:
+                ctx.violation("cli:chromosome-not-written", f"requested chromosome {chrom} was not written: args={run['args']}",
+                              {"kind": "cli", "args": run["args"], "scenario": run["scenario"]})
+                continue
+            for vi, p in enumerate(t["positions"]):
+                for s in run["vcf_samples"]:
+                    gt, gq, gl = calls[(chrom, p, s)]
+                    tl = t["lik"].get(s)
+                    l = None if tl is None or tl[vi] is None else [G.hex_to_fraction(h) for h in tl[vi]]
+                    wcalls.append((s in run["genotyped"], gt_index(gt), None if gq in (None, ".") else int(gq),
+                                   gl_values(gl), l, (chrom, p, s, gt, gq, gl)))
+        ctx.tally("cli.wcalls", len(wcalls))
+        ctx.tally("cli.wcalls.unselected", sum(1 for w in wcalls if not w[0]))
+        ctx.tally("cli.kind." + run.get("kind", "?"))
+        if wcalls:
+            wterm = wcli_term(thr, wcalls)
+            ctx.count(("cliw", json.dumps(run["args"], sort_keys=True), tuple(w[5] for w in wcalls)),
+                      nontrivial=any(not w[0] for w in wcalls) or len(run["vcf_samples"]) > 1)
+            for fn in ("CLIW_L1", "CLIW_L2"):
+                items.append((fn, wterm, 5 + len(wcalls)))
+                meta.append((run, None, wcalls, fn))
     res, errors = eval_items("C08cli", items, nshards=16)
     if errors:
         raise RuntimeError("coq evaluation failed: " + errors[0])
@@ -483,7 +621,15 @@ def check_cli(ctx, n):
     for (run, inst, cl, fn), ok in zip(meta, res):
         if ok:
             continue
-        if fn == "CLI_L1":
+        if fn == "CLIW_L1":
+            bad = find_bad_wcalls(run, cl)
+            sig = "cli:unselected-sample-called" if any(not w[0] for w in bad) else "cli:gt-gl-gq"
+            ctx.violation(sig, f"output VCF violates the GT/GL/GQ rules (every sample of every record): args={run['args']} "
+                               f"samples={run['vcf_samples']} genotyped={run['genotyped']} offending calls={[w[5] for w in bad][:6]}",
+                          {"kind": "cli", "args": run["args"], "scenario": run["scenario"]})
+        elif fn == "CLIW_L2":
+            l2bad.append({"args": run["args"], "writer_calls": [w[5] for w in find_bad_wcalls(run, cl, l2=True)][:10]})
+        elif fn == "CLI_L1":
             ctx.violation("cli:gt-gl-gq", f"output VCF violates the GT/GL/GQ rules: args={run['args']} calls={[(c, i, g, q, [float(x) for x in p]) for c, i, g, q, p in cl]}",
                           {"kind": "cli", "args": run["args"], "scenario": run["scenario"]})
         else:
@@ -491,6 +637,37 @@ def check_cli(ctx, n):
     if l2bad:
         ctx.disagreements_checked += len(l2bad)
         ctx.l2_disagreement("writer model on fb_run of the recorded CLI instance = output VCF (GT/GL/GQ)", l2bad)
+
+
+def gl_values(gl):
+    """GL field -> [10^GL] as exact rationals of the python floats, None if absent"""
+    if gl in (None, "."):
+        return None
+    return [Fraction(10.0 ** float(x)) for x in gl.split(",")]
+
+
+def wcli_term(thr, wcalls):
+    cl = []
+    for sel, gt, gq, p, l, _ in wcalls:
+        g = "(@None nat)" if gt is None else f"(Some {gt})"
+        q = "(@None Z)" if gq is None else f"(Some ({gq})%Z)"
+        pp = "(@None (seq Q))" if p is None else f"(Some {G.coq_list([G.qraw(x) for x in p])})"
+        ll = "(@None (seq Q))" if l is None else f"(Some {G.coq_list([G.qraw(x) for x in l])})"
+        cl.append(f"({'true' if sel else 'false'}, {g}, {q}, {pp}, {ll})")
+    return f"({G.qraw(thr)}, {G.coq_list(cl)})"
+
+
+def find_bad_wcalls(run, wcalls, l2=False):
+    """python mirror of the writer-level rules, only to name the offending calls in the message"""
+    bad = []
+    for w in wcalls:
+        sel, gt, gq, p, l, _ = w
+        uniform = p is None or all(abs(float(x) - 1 / 3) < 1e-4 for x in p)
+        if (l is None if l2 else not sel) and not (uniform and gt is None and gq is None):
+            bad.append(w)
+        elif (gt is None) != (gq is None):
+            bad.append(w)
+    return bad or list(wcalls[:3])
 
 
 def recorded_instance(entry, run):
@@ -551,7 +728,7 @@ def run(ctx):
         ctx.sample({"inst": rec["inst"], "impl": rec["impl"].get("ok"), "checks": rec["ok"]})
     report_core(ctx, records)
     ctx.extra["core_checks"] = {k: sum(1 for r in records if k in r["ok"]) for k in ("L2", "L1chain", "L1plain", "L1sum")}
-    check_cli(ctx, ctx.n(15, 150))
+    check_cli(ctx, ctx.n(20, 160))
 
 
 def replay(ctx, data):
